@@ -19,7 +19,7 @@ import (
 // and readers; restart afterwards.
 
 func init() {
-	register(&simcore.Check{ID: "C14", Bubble: true, Liveness: true, Body: c14Body})
+	register(&simcore.Check{ID: "C14", Bubble: true, Liveness: true, Body: c14Body, AltBody: c14bBody, AltPct: 25, AltSched: true})
 }
 
 func c14Body(r *simcore.Run) {
